@@ -378,7 +378,7 @@ def c15(tier):
         return chk.finish()
     ok, out = build_corpus(chk, "zc-codegen")
     if not ok:
-        errs = compile_errors(out, limit=40)
+        errs = compile_errors(out, limit=100000)
         in_gen = [e for e in errs if "/gen/i" in e or "codegen/gen/" in e]
         if in_gen:
             chk.violation("code generated by zlink-codegen does not compile: " + in_gen[0].splitlines()[0],
